@@ -283,9 +283,23 @@ def wiring(rng):
         if link in links or model.violations(set(links) | {link}):
             continue
         links.append(link)
-    nfut = 0
+    widths = []  # placeholders in creation order: width w = w independent lanes (input i <-> output i)
+    free = {}  # placeholder -> lanes not used yet
     ops = []
     shared = {}
+
+    def hop(after):
+        """(placeholder, lane) for the next hop: a free lane of an existing wider placeholder created later than the previous
+        hop's (placeholder ids grow along every chain - no placeholder-only cycles), or a new placeholder."""
+        options = [f for f, lanes in free.items() if lanes and f > after]
+        if options and rng.random() < 0.5:
+            future = rng.choice(options)
+            return future, free[future].pop(0)
+        future = len(workers) + len(widths)
+        widths.append(rng.choice([1, 1, 1, 2, 2, 3]))
+        free[future] = list(range(1, widths[-1]))
+        return future, 0
+
     for src, oi, dst, port in links:
         chain = rng.choice([0, 1, 1, 2, 2, 3])
         hops = []
@@ -293,20 +307,21 @@ def wiring(rng):
             hops.append(shared[(src, oi)])
             chain -= 1
         elif chain:
-            first = len(workers) + nfut
-            nfut += 1
+            first = hop(-1)
             hops.append(first)
             shared.setdefault((src, oi), first)
-            ops.append(['sub', first, 0, src, oi] if rng.random() < 0.5 else ['pub', src, oi, first, ['A', 0]])
+            ops.append(['sub', first[0], first[1], src, oi] if rng.random() < 0.5 else ['pub', src, oi, first[0], ['A', first[1]]])
             chain -= 1
         for _ in range(chain):
-            nxt = len(workers) + nfut
-            nfut += 1
-            ops.append(['sub', nxt, 0, hops[-1], 0] if rng.random() < 0.5 else ['pub', hops[-1], 0, nxt, ['A', 0]])
+            nxt = hop(hops[-1][0])
+            ops.append(['sub', nxt[0], nxt[1], hops[-1][0], hops[-1][1]] if rng.random() < 0.5 else
+                       ['pub', hops[-1][0], hops[-1][1], nxt[0], ['A', nxt[1]]])
             hops.append(nxt)
-        last, lo = (hops[-1], 0) if hops else (src, oi)
+        last, lo = hops[-1] if hops else (src, oi)
         if port[0] == 'A' and rng.random() < 0.5:
             ops.append(['sub', dst, port[1], last, lo])
         else:
             ops.append(['pub', last, lo, dst, list(port)])
-    return {'creation': creation, 'links': [list(l[:3]) + [list(l[3])] for l in links], 'futures': nfut, 'ops': ops}
+    nfut = len(widths)
+    return {'creation': creation, 'links': [list(l[:3]) + [list(l[3])] for l in links], 'futures': nfut, 'widths': widths, 'ops': ops}
+
